@@ -280,6 +280,13 @@ def run_batch(prop, engine, tier, batch_seed, budget_s, max_runs=None, env=None,
             elif v == "violation":
                 agg["violations"].append({"i": obj["i"], "seed": obj["seed"], "plan": obj["plan"],
                                           "violations": res["violations"]})
+                if os.environ.get("TSIM_STOP_AT_FIRST") and any(
+                        prop in x["properties"] for x in res["violations"]):
+                    # self-test mode: one violation of the property is all the caller wants to know
+                    for w2 in list(alive):
+                        workers[w2].kill()
+                    alive.clear()
+                    break
             elif v == "harness_error":
                 agg["harness_errors"].append({"i": obj["i"], "seed": obj["seed"],
                                               "error": res.get("error"), "tb": res.get("tb")})
